@@ -33,7 +33,10 @@ Rep(n, x) == [i \in 1..n |-> x]
 StepF(e, w) ==
     LET a == e.args IN
     CASE e.op = "Alloc"        -> AllocF(w, a[1], a[2], a[3], TypeBits(e.kind))
-      [] e.op = "Slice"        -> SliceF(w, a[1], a[2], a[3])
+      [] e.op = "Slice"        -> \* a zero-channel view has no frames: out-of-range frame arguments may either panic
+                                  \* or return the empty view (no listed property decides; the code returns the view)
+                                  IF w.views[a[1]].ch = 0 /\ ~(a[2] = 0 /\ a[3] = 0) /\ e.res = "panic"
+                                  THEN R(w, "panic") ELSE SliceF(w, a[1], a[2], a[3])
       [] e.op = "AppendSample" -> AppendSampleF(w, a[1], a[2])
       [] e.op = "SetSample"    -> SetSampleF(w, a[1], a[2], a[3])
       [] e.op = "Sample"       -> SampleF(w, a[1], a[2])
